@@ -289,6 +289,8 @@ class Ctx:
         if key in self.seen:
             return
         self.seen.add(key)
+        if kind == 'A' and props:
+            meta['_explicit'] = True      # an auxiliary obligation that only some of the harness's properties depend on
         o = Ob(self.harness, clause, kind, list(props or self.props), pc, goal, meta, self.npaths)
         self.obs.append(o)
 
